@@ -138,3 +138,168 @@ Proof.
   - eapply fnested_app; [exact B1|exact B2].
   - rewrite fposl_app. apply Forall_app. split; [exact C1|rewrite <- I; exact C2].
 Qed.
+
+(* closing a rule: Start pushed at entry (s1 -> s2), closed forest `ch` emitted by the body (s2 -> sb),
+   then the Start gets its End index and the End token is pushed (sb -> s'): one more tree *)
+Lemma D_rule bnd s1 s2 sb s' r body :
+  queue s2 = QStart 0 (pos s1) :: queue s1 -> pos s2 = pos s1 -> input s2 = input s1 ->
+  D bnd s2 sb ->
+  untagq (queue sb) = body ++ QStart 0 (pos s1) :: untagq (queue s1) ->
+  untagq (queue s') = QEnd (length (queue s1)) r None (pos s') :: body ++
+                      QStart (S (length body + length (queue s1))) (pos s1) :: untagq (queue s1) ->
+  pos s' = pos sb -> bnd (input s1) (pos s1) = true -> bnd (input s1) (pos s') = true ->
+  D bnd s1 s'.
+Proof.
+  intros Q2 P2 I2 (ch & A & B & C) Eb Es Ps B1 B2.
+  assert (Hb : ustream body = tokens_at (S (length (queue s1))) ch).
+  { rewrite <- (ustream_untagq (queue sb)), Eb in A. rewrite Q2 in A. cbn [length] in A.
+    rewrite ustream_app, !ustream_cons, ustream_untagq in A.
+    apply app_inv_head in A. exact A. }
+  assert (Lb : length body = 2 * fsize ch).
+  { rewrite <- (length_ustream body), Hb. apply length_tokens_at. }
+  exists [Node r None (pos s1) (pos s') ch]. split; [|split].
+  - rewrite <- (ustream_untagq (queue s')), Es.
+    rewrite ustream_cons, ustream_app, ustream_cons, ustream_untagq, Hb, Lb.
+    rewrite tokens_at_cons. cbn [tokens_at conv iuntag]. rewrite <- !app_assoc. cbn [app].
+    replace (S (2 * fsize ch + length (queue s1))) with (S (length (queue s1)) + 2 * fsize ch) by lia.
+    reflexivity.
+  - constructor; [apply Nat.le_refl| |constructor; apply Nat.le_refl].
+    rewrite <- P2, Ps. exact B.
+  - rewrite fposl_cons. cbn [fposl]. constructor; [exact B1|]. apply Forall_app. split.
+    + rewrite <- I2. exact C.
+    + constructor; [exact B2|constructor].
+Qed.
+
+(* ---------- primitives never change the queue except for the tag of its last token ---------- *)
+Lemma exec_prim_ueq cfg o s s' :
+  (exec_prim cfg o s = ROk s' \/ exec_prim cfg o s = RErr s') -> untagq (queue s') = untagq (queue s).
+Proof.
+  intros H.
+  assert (HP : forall s0 r t x, (apply_pres s0 r t = ROk x \/ apply_pres s0 r t = RErr x) -> queue x = queue s0).
+  { intros s0 r t x. unfold apply_pres. destruct r as [p| |].
+    - destruct t as [tk|]; [destruct (pa_enabled s0)|]; intros [[= <-]|Hx]; try discriminate; try reflexivity.
+      destruct (handle_token_core (set_pos s0 p) (pos s0) tk true) as [C _].
+      change (queue (handle_token_parse_result (set_pos s0 p) (pos s0) tk true) = queue s0). rewrite (c_queue _ _ C). reflexivity.
+    - destruct t as [tk|]; [destruct (pa_enabled s0)|]; intros [Hx|[= <-]]; try discriminate; try reflexivity.
+      destruct (handle_token_core s0 (pos s0) tk false) as [C _].
+      change (queue (handle_token_parse_result s0 (pos s0) tk false) = queue s0). rewrite (c_queue _ _ C). reflexivity.
+    - intros [Hx|Hx]; discriminate. }
+  assert (HS : forall s0 str x, (st_match_string s0 str = ROk x \/ st_match_string s0 str = RErr x) -> queue x = queue s0)
+    by (intros; eapply HP; eauto).
+  assert (HK : forall i j d, (peek_slice s i j d = ROk s' \/ peek_slice s i j d = RErr s') -> queue s' = queue s).
+  { intros i j d. unfold peek_slice. destruct (constrain_idxs _ _ _) as [[x y]|]; [|intros [Hx|[= <-]]; try discriminate; auto].
+    destruct (Nat.leb y x); [intros [[= <-]|Hx]; try discriminate; auto|].
+    destruct (match_all _ _ _); intros [Hx|Hx]; inversion Hx; subst; auto. }
+  destruct o; cbn [exec_prim] in H;
+    try (f_equal; eapply HP; eassumption); try (f_equal; eapply HS; eassumption); try (f_equal; eapply HK; eassumption).
+  - destruct H as [[= <-]|H]; [reflexivity|discriminate].
+  - destruct H as [H|[= <-]]; [discriminate|reflexivity].
+  - destruct (skip_until cfg (input s) (pos s) ss); destruct H as [H|H]; inversion H; subst; reflexivity.
+  - destruct (Nat.eqb (pos s) 0); destruct H as [H|H]; inversion H; subst; reflexivity.
+  - destruct (Nat.eqb (pos s) (length (input s))); destruct H as [H|H]; inversion H; subst; reflexivity.
+  - destruct H as [[= <-]|H]; [reflexivity|discriminate].
+  - destruct (peek (stack s)); [f_equal; eapply HS; eassumption|destruct H; discriminate].
+  - destruct (pop (stack s)) as [st [x|]]; [|destruct H; discriminate]. apply HS in H. f_equal. exact H.
+  - destruct (pop (stack s)) as [st [x|]]; destruct H as [H|H]; inversion H; subst; reflexivity.
+  - destruct (match_pop_loop _ _ _ _) as [[[st p] [|]]|]; destruct H as [H|H]; inversion H; subst; reflexivity.
+  - destruct (negb (lk_eqb (lookahead s) LNone)); [destruct H as [[= <-]|H]; [reflexivity|discriminate]|].
+    destruct (queue s) as [|[e p|si r tg p] q] eqn:Q; destruct H as [H|H]; inversion H; subst; try rewrite Q; reflexivity.
+Qed.
+
+(* ---------- the rule contract with the intermediate states named ----------
+   (Contracts.rule_contract hides the state handed to the body behind an existential; the induction
+   below needs to run the body from it, so the same proof is replayed with s1/s2 explicit) *)
+Section RuleShape.
+Variable cfg : config.
+Variable E : env.
+
+Lemma rule_shape fuel r p s s1 a :
+  wf s -> Inv (stack s) a -> inc_call s = Some s1 ->
+  match exec cfg E fuel p (snd (rule_enter s1)), exec cfg E (S fuel) (PRule r p) s with
+  | ROk sb, ROk s' =>
+      pos s' = pos sb /\
+      (if emits s1
+       then exists body, untagq (queue sb) = body ++ QStart 0 (pos s1) :: untagq (queue s1) /\
+                         untagq (queue s') = QEnd (length (queue s1)) r None (pos s') :: body ++
+                                            QStart (S (length body + length (queue s1))) (pos s1) :: untagq (queue s1)
+       else queue s' = queue sb)
+  | RErr sb, RErr s' =>
+      pos s' = pos sb /\ (if emits s1 then untagq (queue s') = untagq (queue s1) else queue s' = queue sb)
+  | RPanic k, RPanic k' => k = k'
+  | ROutOfFuel, ROutOfFuel => True
+  | _, _ => False
+  end.
+Proof.
+  intros W I Ei. cbn [exec]. rewrite Ei.
+  destruct (inc_call_frame _ _ Ei) as (F1 & e4 & e2 & e3 & e1 & _).
+  destruct (rule_enter s1) as [fr s2] eqn:Er. cbn [snd].
+  assert (Hfr : fr = fst (rule_enter s1)) by now rewrite Er. assert (Hs2 : s2 = snd (rule_enter s1)) by now rewrite Er.
+  destruct (rule_enter_spec s1) as (Rp & Ri & Rc & Rm & Q & SQ). rewrite <- Hs2 in SQ, Q. rewrite <- Hfr in Rp, Ri, Rc, Rm. dsq SQ.
+  assert (W2 : wf s2) by (unfold wf in *; congruence).
+  assert (I2 : Inv (stack s2) a) by (rewrite q_stack0, e4; exact I).
+  pose proof (exec_post cfg E fuel p s2 a W2 I2) as P.
+  destruct (exec cfg E fuel p s2) as [sb|sb|k|] eqn:Eb; auto.
+  - (* body Ok *)
+    cbn in P. destruct P as (F & Wb & ab & Ib & Sb).
+    pose proof (rule_ok_post r s1 sb a ab Wb) as PO. rewrite <- Hs2, <- Hfr in PO. specialize (PO F Ib Sb).
+    destruct F as [f_input0 f_la0 f_at0 f_lim0 f_en0 f_calls0 f_pos0 f_mp0 f_cs0 f_queue0].
+    unfold rule_ok in *.
+    set (sa := if lk_eqb (lookahead sb) LNeg then track sb r (rf_pos fr) (rf_pai fr) (rf_nai fr) (rf_attempts fr) else sb) in *.
+    assert (T : same_but_attempts sb sa) by (unfold sa; destruct (lk_eqb (lookahead sb) LNeg); [apply track_same|split; reflexivity]).
+    dtr T.
+    assert (Em : emits sa = emits s1). { unfold emits. rewrite t_la0, t_at0, f_la0, f_at0, q_la0, q_at0. reflexivity. }
+    rewrite Em in *.
+    destruct (emits s1) eqn:Ee.
+    + destruct f_queue0 as [body Eq]. rewrite Q in Eq. cbn [untagq map untag] in Eq. fold (untagq (queue s1)) in Eq.
+      rewrite <- t_queue0 in Eq.
+      destruct (set_start_end_ok (queue sa) body 0 (pos s1) (untagq (queue s1)) (length (queue sa)) Eq) as (q' & E1 & E2 & E3).
+      rewrite untagq_length in E1. rewrite Ri in *. rewrite E1 in *.
+      assert (LQ : length (queue sa) = S (length body + length (queue s1))).
+      { rewrite <- (untagq_length (queue sa)), Eq, app_length. cbn [length]. rewrite untagq_length. lia. }
+      set (sb' := set_queue sa (QEnd (length (queue s1)) r None (pos sa) :: q')) in *.
+      assert (FIN : forall y, same_core sb' y -> pos y = pos sb /\
+                 exists body0, untagq (queue sb) = body0 ++ QStart 0 (pos s1) :: untagq (queue s1) /\
+                   untagq (queue y) = QEnd (length (queue s1)) r None (pos y) :: body0 ++
+                       QStart (S (length body0 + length (queue s1))) (pos s1) :: untagq (queue s1)).
+      { intros y C. pose proof (c_queue _ _ C) as cq. pose proof (c_pos _ _ C) as cp. cbn in cq, cp.
+        split; [congruence|]. exists body. split; [rewrite <- t_queue0, Eq; reflexivity|].
+        rewrite cq. cbn. fold (untagq q'). rewrite E2, LQ, cp. reflexivity. }
+      change (pa_enabled sb') with (pa_enabled sa) in *.
+      destruct (pa_enabled sa).
+      * destruct (try_add_rule_to_stack sb' r (rf_csn fr) (rf_max fr)) as [y|] eqn:Ey; cbn [lift] in *.
+        -- apply FIN. eapply try_add_rule_to_stack_core; eauto.
+        -- cbn in PO. congruence.
+      * apply FIN. apply same_core_refl.
+    + destruct (pa_enabled sa).
+      * destruct (try_add_rule_to_stack sa r (rf_csn fr) (rf_max fr)) as [y|] eqn:Ey; cbn [lift] in *.
+        -- apply try_add_rule_to_stack_core in Ey. pose proof (c_queue _ _ Ey). pose proof (c_pos _ _ Ey). split; congruence.
+        -- cbn in PO. congruence.
+      * split; congruence.
+  - (* body Err *)
+    cbn in P. destruct P as (F & Wb & ab & Ib & Sb).
+    pose proof (rule_err_post r s1 sb a ab Wb) as PO. rewrite <- Hs2, <- Hfr in PO. specialize (PO F Ib Sb).
+    destruct F as [f_input0 f_la0 f_at0 f_lim0 f_en0 f_calls0 f_pos0 f_mp0 f_cs0 f_queue0].
+    unfold rule_err in *.
+    assert (FIN : forall y, queue y = queue sb -> pos y = pos sb -> lookahead y = lookahead sb -> atomicity y = atomicity sb ->
+              let z := (if emits y then set_queue y (vtruncate (rf_index fr) (queue y)) else y) in
+              pos z = pos sb /\ (if emits s1 then untagq (queue z) = untagq (queue s1) else queue z = queue sb)).
+    { intros y Qy Py Ly Ay. assert (Em : emits y = emits s1).
+      { unfold emits. rewrite Ly, Ay, f_la0, f_at0, q_la0, q_at0. reflexivity. }
+      cbv zeta. rewrite Em. destruct (emits s1) eqn:Ee; cbn; [|split; congruence]. split; [congruence|].
+      destruct f_queue0 as [body Eq]. rewrite Q in Eq. cbn [untagq map untag] in Eq. fold (untagq (queue s1)) in Eq.
+      rewrite Qy, Ri.
+      apply (untagq_truncate_back (queue s1) (queue sb) (length (queue s1)) (body ++ [QStart 0 (pos s1)])); auto.
+      rewrite Eq, <- app_assoc. reflexivity. }
+    destruct (negb (lk_eqb (lookahead sb) LNeg)).
+    + set (t := track sb r (rf_pos fr) (rf_pai fr) (rf_nai fr) (rf_attempts fr)) in *.
+      pose proof (track_same sb r (rf_pos fr) (rf_pai fr) (rf_nai fr) (rf_attempts fr)) as T. fold t in T. dtr T.
+      destruct (pa_enabled t).
+      * destruct (try_add_rule_to_stack t r (rf_csn fr) (rf_max fr)) as [y|] eqn:Ey.
+        -- apply try_add_rule_to_stack_core in Ey.
+           apply (FIN y); [rewrite (c_queue _ _ Ey)|rewrite (c_pos _ _ Ey)|rewrite (c_la _ _ Ey)|rewrite (c_at _ _ Ey)]; congruence.
+        -- cbn in PO. congruence.
+      * apply (FIN t); congruence.
+    + apply (FIN sb); reflexivity.
+Qed.
+
+End RuleShape.
